@@ -1123,7 +1123,10 @@ where
 
                     if message[0] as char == 'S' {
                         error!("Got Sync message but failed to get a connection from the pool");
+                        // The batch is gone: so are the statements it prepared and a plugin's verdict on it.
+                        self.forget_buffered_prepared_statements();
                         self.reset_buffered_state();
+                        plugin_output = None;
                     }
 
                     error_response(
